@@ -29,6 +29,8 @@ var menu = []string{
 	"rename:tag/a=tag/a2", "rename:tag/b=tag/a", "rename:tag/a=service/a", "rename:tag/b=tag/b2", "rename:tag/a=tag/",
 	"deltag:tag/a", "deltag:tag/b", "deltag:tag/zz", "deltag:mark/m",
 	"markadd:mark/m=1", "markadd:mark/m=99", "markadd:tag/a=1", "markdel:mark/m=0", "markadd:mark/m=", "markadd:mark/zz=1",
+	// a tag that refers to a mark, a mark that is emptied, deleted or extended while referenced
+	"addtag:mark/n=id:1", "addtag:tag/rm=mark:n", "markdel:mark/n=1", "markadd:mark/n=2", "deltag:mark/n", "rename:mark/n=mark/n2",
 	"converters:tag/a=conv", "converters:tag/a=nope", "converters:tag/b=conv", "converters:tag/a=", "converters:tag/zz=conv",
 }
 
@@ -272,6 +274,27 @@ func checkApplied(call string, st manager.VerifState, bad func(string, string, .
 		if find(name) != nil || find(val) == nil {
 			bad("c11.applied-without-effect", "%s returned nil but old name present=%v new name present=%v", call, find(name) != nil, find(val) != nil)
 		}
+	case "markadd", "markdel":
+		t := find(name)
+		if t == nil {
+			bad("c11.applied-without-effect", "%s returned nil but tag %s does not exist", call, name)
+			break
+		}
+		for _, f := range strings.Split(val, ",") {
+			id, err := strconv.Atoi(f)
+			if err != nil {
+				continue
+			}
+			in := false
+			for _, m := range t.Matches {
+				if int(m) == id {
+					in = true
+				}
+			}
+			if in != (op == "markadd") {
+				bad("c11.applied-without-effect", "%s returned nil but stream %d marked=%v (tag %s: %s, matches %v)", call, id, in, name, t.Definition, t.Matches)
+			}
+		}
 	case "deltag":
 		if find(arg) != nil {
 			bad("c11.applied-without-effect", "%s returned nil but the tag still exists", call)
@@ -387,7 +410,7 @@ func Run(tier string) int {
 	cv["traces_validated_against_impl"] = transitions
 	cv["evaluations"] = transitions
 	cv["distinct_nontrivial"] = applied
-	cv["rule"] = "BFS over sequences of tag API calls (47-call menu: valid and invalid names, definitions, references to existing/missing/self/cycle-closing tags, query/colour/name updates, marks with known/unknown ids, converter attach/detach, deletes) on the real service holding 3 imported streams, in three modes (background jobs drained after every call / every job held where it starts until the sequence ends / every job held before its completion until the sequence ends; in the held modes the references and flags are checked while the jobs are parked and again after they ran); a state is the complete tag table plus the parked jobs; every transition runs in a supervised worker process; non-trivial = the call was applied (returned nil)"
+	cv["rule"] = "BFS over sequences of tag API calls (53-call menu: valid and invalid names, definitions, references to existing/missing/self/cycle-closing tags, query/colour/name updates, marks with known/unknown ids, converter attach/detach, deletes) on the real service holding 3 imported streams, in three modes (background jobs drained after every call / every job held where it starts until the sequence ends / every job held before its completion until the sequence ends; in the held modes the references and flags are checked while the jobs are parked and again after they ran); a state is the complete tag table plus the parked jobs; every transition runs in a supervised worker process; non-trivial = the call was applied (returned nil)"
 	cv["menu"] = len(menu)
 	cv["depth_completed"] = depthDone
 	cv["depth_bound"] = depth
